@@ -119,7 +119,7 @@ def part_real(ctx, binp, wd):
     t0 = time.time()
     quick = ctx.tier == "quick"
     nproc = 3 if quick else 12
-    per = 800 if quick else 10000
+    per = 800 if quick else 8000
     procs = []
     for k in range(nproc):
         tp = os.path.join(wd, "real-%d.ndjson" % k)
